@@ -781,3 +781,320 @@ func (w *World) contextsOf(roots []*goRoot) map[*ssa.Function][]*goRoot {
 	}
 	return out
 }
+
+// ---------------------------------------------------------------------------------------------
+// re-acquisition of a held mutex (sync.Mutex / RWMutex are not reentrant: the goroutine blocks for ever,
+// and with it everybody who needs the lock afterwards)
+
+type relock struct {
+	fn  *ssa.Function
+	ins ssa.Instruction
+	mu  *types.Var
+	via string
+}
+
+// acquiresFromEntry: the mutex fields f may lock (itself or through static callees) on a path from its
+// entry on which it has not unlocked them first. Value: how.
+func (w *World) acquiresFromEntry(f *ssa.Function, depth int, busy map[*ssa.Function]bool) map[*types.Var]string {
+	if w.acqMemo == nil {
+		w.acqMemo = map[*ssa.Function]map[*types.Var]string{}
+	}
+	if m, ok := w.acqMemo[f]; ok {
+		return m
+	}
+	out := map[*types.Var]string{}
+	if f == nil || f.Blocks == nil || depth > 6 || busy[f] {
+		return out
+	}
+	busy[f] = true
+	defer delete(busy, f)
+	type cand struct {
+		ins ssa.Instruction
+		mu  *types.Var
+		how string
+	}
+	var cands []cand
+	allInstrs(f, func(i ssa.Instruction) {
+		c, ok := i.(*ssa.Call)
+		if !ok {
+			return
+		}
+		if op, mu, _, ok := lockOp(c); ok {
+			if op == "Lock" || op == "RLock" {
+				cands = append(cands, cand{i, mu, w.FuncName(f) + " " + op + "s " + mu.Name() + " at " + w.Pos(c.Pos())})
+			}
+			return
+		}
+		if g := staticCallee(c); g != nil && w.isRepoFunc(g) {
+			for mu, how := range w.acquiresFromEntry(g, depth+1, busy) {
+				cands = append(cands, cand{i, mu, how})
+			}
+		}
+	})
+	for _, c := range cands {
+		if _, have := out[c.mu]; have {
+			continue
+		}
+		mu := c.mu
+		// reachable from the entry without releasing mu first
+		hit := reach(f, nil, func(i ssa.Instruction) bool { return i == c.ins }, func(i ssa.Instruction) bool {
+			cc, ok := i.(*ssa.Call)
+			if !ok {
+				return false
+			}
+			op, m2, _, ok := lockOp(cc)
+			return ok && m2 == mu && (op == "Unlock" || op == "RUnlock")
+		}, nil)
+		if hit != nil {
+			out[mu] = c.how
+		}
+	}
+	if depth == 0 {
+		w.acqMemo[f] = out
+	}
+	return out
+}
+
+// stringerOf: the repo method fmt would call to print a value of type t (String, Error, GoString, Format).
+func (w *World) stringerOf(t types.Type) *ssa.Function {
+	for _, name := range []string{"String", "Error", "GoString", "Format"} {
+		for _, tt := range []types.Type{t, types.NewPointer(t)} {
+			if _, isPtr := t.(*types.Pointer); isPtr && tt != t {
+				continue
+			}
+			ms := w.Prog.MethodSets.MethodSet(tt)
+			for i := 0; i < ms.Len(); i++ {
+				if ms.At(i).Obj().Name() == name {
+					if fn := w.Prog.MethodValue(ms.At(i)); fn != nil && w.isRepoFunc(fn) {
+						return fn
+					}
+				}
+			}
+		}
+	}
+	return nil
+}
+
+func (w *World) reentrantLocks(funcs map[*ssa.Function]bool) ([]relock, int) {
+	la := w.Locks()
+	var out []relock
+	sites := 0
+	for _, f := range sortedFuncs(w, funcs) {
+		allInstrs(f, func(i ssa.Instruction) {
+			held := la.heldAt[i]
+			if len(held) == 0 {
+				return
+			}
+			switch x := i.(type) {
+			case *ssa.Call:
+				sites++
+				if op, mu, _, ok := lockOp(x); ok {
+					if (op == "Lock" || op == "RLock") && held[mu] != 0 && !(op == "RLock" && held[mu] == modeR) {
+						out = append(out, relock{f, i, mu, "directly"})
+					}
+					return
+				}
+				if g := staticCallee(x); g != nil && w.isRepoFunc(g) {
+					for mu, how := range w.acquiresFromEntry(g, 0, map[*ssa.Function]bool{}) {
+						if held[mu] != 0 {
+							out = append(out, relock{f, i, mu, "through the call: " + how})
+						}
+					}
+				}
+			case *ssa.MakeInterface:
+				// a value handed to a printing function as interface{}: fmt calls its String()/Error() method
+				if it, ok := x.Type().Underlying().(*types.Interface); !ok || it.NumMethods() > 1 {
+					return
+				}
+				if s := w.stringerOf(x.X.Type()); s != nil {
+					sites++
+					for mu, how := range w.acquiresFromEntry(s, 0, map[*ssa.Function]bool{}) {
+						if held[mu] != 0 {
+							out = append(out, relock{f, i, mu, "the value is printed, which runs " + how})
+						}
+					}
+				}
+			}
+		})
+	}
+	return out, sites
+}
+
+// ---------------------------------------------------------------------------------------------
+// check-then-act across two critical sections
+//
+// A value read from a structure under its mutex is only valid while the mutex is held. When a function
+// reads under the lock, releases it, takes it again and then writes the structure at a place computed
+// from what it read (the free slot it found, the entry it looked up), two goroutines that interleave
+// between the two critical sections act on the same stale answer — both allocate the same identifier.
+
+type splitSection struct {
+	fn          *ssa.Function
+	read, write ssa.Instruction
+	mu          *types.Var
+	what        string
+}
+
+func (w *World) splitCriticalSections(funcs []*ssa.Function) ([]splitSection, int) {
+	la := w.Locks()
+	var out []splitSection
+	examined := 0
+	for _, f := range funcs {
+		locks := map[*types.Var]int{}
+		allInstrs(f, func(i ssa.Instruction) {
+			if c, ok := i.(*ssa.Call); ok {
+				if op, mu, _, ok := lockOp(c); ok && (op == "Lock" || op == "RLock") {
+					locks[mu]++
+				}
+			}
+		})
+		for mu, k := range locks {
+			if k < 2 {
+				continue
+			}
+			owner := fieldOwner(w, mu)
+			if owner == nil {
+				continue
+			}
+			isUnlock := func(i ssa.Instruction) bool {
+				c, ok := i.(*ssa.Call)
+				if !ok {
+					return false
+				}
+				op, m2, _, ok := lockOp(c)
+				return ok && m2 == mu && (op == "Unlock" || op == "RUnlock")
+			}
+			ownedField := func(addr ssa.Value) bool {
+				for d := 0; d < 4; d++ {
+					switch x := addr.(type) {
+					case *ssa.FieldAddr:
+						if nt := namedOf(x.X.Type()); nt != nil && nt == owner {
+							return fieldVar(x) != mu
+						}
+						addr = x.X
+					case *ssa.IndexAddr:
+						addr = x.X
+					case *ssa.UnOp:
+						if x.Op != token.MUL {
+							return false
+						}
+						addr = x.X
+					default:
+						return false
+					}
+				}
+				return false
+			}
+			allInstrs(f, func(i ssa.Instruction) {
+				if la.heldAt[i][mu] == 0 {
+					return
+				}
+				var ops []ssa.Value
+				what := ""
+				switch x := i.(type) {
+				case *ssa.MapUpdate:
+					if !ownedField(x.Map) {
+						return
+					}
+					ops, what = []ssa.Value{x.Key, x.Value}, "map update of "+symOf(x.Map).String()
+				case *ssa.Store:
+					if !ownedField(x.Addr) {
+						return
+					}
+					ops, what = []ssa.Value{x.Val}, "store to "+symOf(x.Addr).String()
+					if ia, ok := x.Addr.(*ssa.IndexAddr); ok {
+						ops = append(ops, ia.Index)
+					}
+				default:
+					return
+				}
+				examined++
+				// guarded reads the operands depend on
+				seen := map[ssa.Value]bool{}
+				var reads []ssa.Instruction
+				var back func(v ssa.Value, d int)
+				back = func(v ssa.Value, d int) {
+					if v == nil || d > 10 || seen[v] {
+						return
+					}
+					seen[v] = true
+					switch x := v.(type) {
+					case *ssa.UnOp:
+						if x.Op == token.MUL && ownedField(x.X) && la.heldAt[x][mu] != 0 {
+							reads = append(reads, x)
+							return
+						}
+						back(x.X, d+1)
+					case *ssa.Lookup:
+						if ownedField(x.X) && la.heldAt[x][mu] != 0 {
+							reads = append(reads, x)
+							return
+						}
+						back(x.X, d+1)
+						back(x.Index, d+1)
+					case *ssa.BinOp:
+						back(x.X, d+1)
+						back(x.Y, d+1)
+					case *ssa.Convert:
+						back(x.X, d+1)
+					case *ssa.ChangeType:
+						back(x.X, d+1)
+					case *ssa.Extract:
+						back(x.Tuple, d+1)
+					case *ssa.Phi:
+						for _, e := range x.Edges {
+							back(e, d+1)
+						}
+					case *ssa.Field:
+						back(x.X, d+1)
+					case *ssa.MakeInterface:
+						back(x.X, d+1)
+					}
+				}
+				for _, o := range ops {
+					back(o, 0)
+				}
+				for _, rd := range reads {
+					isW := func(j ssa.Instruction) bool { return j == i }
+					if reach(f, rd, isW, nil, nil) == nil {
+						continue // the write does not follow the read
+					}
+					if reach(f, rd, isW, isUnlock, nil) != nil {
+						continue // same critical section on some path: the ordinary read-modify-write
+					}
+					out = append(out, splitSection{f, rd, i, mu, what})
+					return
+				}
+			})
+		}
+	}
+	return out, examined
+}
+
+// fieldOwner: the named struct type that declares the field.
+func fieldOwner(w *World, fld *types.Var) *types.Named {
+	if fld == nil || !fld.IsField() || fld.Pkg() == nil {
+		return nil
+	}
+	sc := fld.Pkg().Scope()
+	for _, name := range sc.Names() {
+		tn, ok := sc.Lookup(name).(*types.TypeName)
+		if !ok {
+			continue
+		}
+		nt, ok := tn.Type().(*types.Named)
+		if !ok {
+			continue
+		}
+		st, ok := nt.Underlying().(*types.Struct)
+		if !ok {
+			continue
+		}
+		for i := 0; i < st.NumFields(); i++ {
+			if st.Field(i) == fld {
+				return nt
+			}
+		}
+	}
+	return nil
+}
